@@ -16,6 +16,13 @@ def hexList (ls : List (List Char)) : String :=
 
 def unhexChars (h : String) : Option (List Char) := (unhex h).map bytesToChars
 
+/-- the behaviour of the stand-in `pkg-config` / `llvm-config` scripts the check puts first on PATH -/
+def fakeConfig (argv : List (List Char)) : Option (List Char) :=
+  let args := argv.drop 1
+  if args.contains "--fail".toList then none
+  else if args.contains "--nl".toList then some "-La\n-lb\n".toList
+  else some ("-DARGS=".toList ++ (",".toList).intercalate args ++ ['\n'])
+
 def handle (line : String) : String :=
   match fields line with
   | ["parse", h] =>
@@ -43,6 +50,24 @@ def handle (line : String) : String :=
     match unhexChars t, unhexChars d, kvl with
     | some t, some d, some kvl => "ok " ++ charsToHex (Shell.expandTemplate t kvl d)
     | _, _, _ => "bad-op"
+  | ["xenv", tmpl, kvs] =>
+    let parseKV (s : String) : Option (List Char × List Char) :=
+      match s.splitOn "=" with
+      | [k, v] => do pure ((← unhexChars k), (← unhexChars v))
+      | _ => none
+    let kvl := if kvs = "." then some [] else (kvs.splitOn ",").mapM parseKV
+    match unhexChars tmpl, kvl with
+    | some tm, some kvl =>
+      let env (n : List Char) : List Char := ((kvl.find? (·.1 = n)).map (·.2)).getD []
+      match Shell.expandEnvWithCmd fakeConfig env tm with
+      | none => "panic"
+      | some (r, cfg) =>
+        let args : List (List UInt8) :=
+          if r.isEmpty then []
+          else if cfg then (Shell.splitFlags ((Utf8.fromRunes (r.map (·.toNat))))).map (·.map UInt8.ofNat)
+          else [(Utf8.fromRunes (r.map (·.toNat))).map UInt8.ofNat]
+        "ok " ++ charsToHex r ++ " | " ++ (if args.isEmpty then "." else " ".intercalate (args.map hex))
+    | _, _ => "bad-op"
   | _ => "bad-op"
 
 def main : IO Unit := lineLoop handle
